@@ -99,6 +99,60 @@ def gen_cases(tier, seed):
                 texts.append("\n".join(perm) + "\n")
         se = rnd.choice(["2015", "2021", "2024"])
         cases.append({"kind": "perms", "config": [["style_edition", se]], "texts": texts, "names": names, "form": form})
+    # large groups (> 20 declarations, where an unstable sort would differ from a stable one) holding imports that
+    # differ only in their alias: ranked equal, they keep their relative order; every shuffle that keeps it gives one text
+    SEG = ["alpha", "beta", "chi", "delta", "eta", "gamma", "iota", "kappa", "mid", "mu", "nu", "omega", "pi", "rho", "sigma", "tau", "fmt", "io", "Result", "Write", "x9", "x10", "B", "_u"]
+    nlarge = 6 if tier == "quick" else 60
+    for _ in range(nlarge):
+        n = rnd.randint(22, 34)
+        paths = set()
+        while len(paths) < n:
+            paths.add("::".join(rnd.choice(SEG) for _ in range(rnd.randint(2, 3))))
+        paths = sorted(paths)
+        decls = ["use %s;" % q for q in paths]
+        pairs = []
+        for q in rnd.sample(paths, rnd.randint(1, 3)):
+            al = "use %s as Al%d;" % (q, len(pairs))
+            pairs.append(("use %s;" % q, al))
+            decls.append(al)
+        first_first = rnd.random() < 0.5
+        texts = []
+        for _ in range(10):
+            perm = list(decls)
+            rnd.shuffle(perm)
+            for plain, al in pairs:       # fix the relative order of every alias-equal pair
+                i, j = perm.index(plain), perm.index(al)
+                lo, hi = min(i, j), max(i, j)
+                perm[lo], perm[hi] = (plain, al) if first_first else (al, plain)
+            texts.append("\n".join(perm) + "\n")
+        cases.append({"kind": "perms", "config": [["style_edition", rnd.choice(["2015", "2024"])]], "texts": texts, "names": paths, "form": "use_large"})
+    # nested lists whose entries share leading segments and are not yet normalised (one-element lists, unsorted inner lists)
+    nnest = 12 if tier == "quick" else 150
+    for _ in range(nnest):
+        def entry(depth):
+            head = rnd.choice(["p", "q", "io", "fmt"])
+            k = rnd.random()
+            if depth < 2 and k < 0.6:
+                inner = [entry(depth + 1) for _ in range(rnd.randint(1, 3))]
+                return (head, inner)
+            return (head + "::" + rnd.choice(["a", "z", "m", "n", "BufRead", "Write", "x2", "x10"]), None)
+        top = [entry(0) for _ in range(rnd.randint(2, 4))]
+        def render(e, shuffle):
+            head, inner = e
+            if inner is None:
+                return head
+            inner = list(inner)
+            if shuffle:
+                rnd.shuffle(inner)
+            return "%s::{%s}" % (head, ", ".join(render(x, shuffle) for x in inner))
+        texts = []
+        for k in range(8):
+            tp = list(top)
+            if k:
+                rnd.shuffle(tp)
+            texts.append("use y::{%s};\n" % ", ".join(render(e, k > 0) for e in tp))
+        if len(set(texts)) > 1:
+            cases.append({"kind": "perms", "config": [["style_edition", rnd.choice(["2015", "2024"])]], "texts": texts, "names": [], "form": "use_nested"})
     # group boundaries: an element never crosses a blank line (mod / extern crate always; use unless regrouping),
     # a #[macro_use] item, a skipped item or an item of another kind
     nb = 40 if tier == "quick" else 500
@@ -249,6 +303,6 @@ def run(tier, seed, replay):
         imports="From V Require Import Base.Text C11.Ord C11.Model C11.Run.\nOpen Scope N_scope.",
         model_expr=model_expr,
         canon_model=canon_model, canon_impl=canon_impl, oracle=oracle, nontrivial=nontrivial,
-        rule="(a) version_sort comparison matrices + sort_by over identifier lists (alphabet a B _ 0 1 9 é b Z, leading zeros, numbers around 2^64) compared with the model; (b) compare_items matrices for generated mod / extern crate groups under style editions 2015/2021/2024; (c) end to end: every permutation of a group of 2..5 mod / extern crate / use declarations / use-list names is formatted and must give one text. non-trivial = >= 3 elements (>= 6 permutations); distinct by hash",
+        rule="(a) version_sort comparison matrices + sort_by over identifier lists (alphabet a B _ 0 1 9 é b Z, leading zeros, numbers around 2^64) compared with the model; (b) compare_items matrices for generated mod / extern crate groups under style editions 2015/2021/2024; (c) end to end: every permutation of a group of 2..5 mod / extern crate / use declarations / use-list names, 10 shuffles of groups of 22..34 imports containing alias-only pairs (relative order of each pair kept), and 8 shuffles (at every level) of nested import lists with repeated leading segments, are formatted and must give one text. non-trivial = >= 3 elements (>= 6 permutations); distinct by hash",
         per_file=40,
     )
